@@ -551,7 +551,12 @@ def _run_suites(suites, fixture_registry, pre_run_scheduled_fixtures, session,
 
     exception, serialized_exception = session.event_manager.get_pending_failure()
     if exception:
-        raise exception.__class__(serialized_exception)
+        try:
+            new_exception = exception.__class__(serialized_exception)
+        except Exception:
+            # the exception class cannot be built from a single string (UnicodeEncodeError for instance)
+            new_exception = LemoncheesecakeException(serialized_exception)
+        raise new_exception
 
 
 def run_suites(suites, fixture_registry, session, force_disabled=False, stop_on_failure=False, nb_threads=1):
